@@ -55,12 +55,16 @@ def r02_1(ctx, fx):
                    detail=str(sorted(guards.rootstrs(fn, c.args[1]))))
         shr = [s for n, s in fn.assigns() if s["rv"]["r"] == "bin" and s["rv"]["op"].startswith("Shr") and fn.const_value(s["rv"]["b"]) == 8]
         msk = [s for n, s in fn.assigns() if s["rv"]["r"] == "bin" and s["rv"]["op"] == "BitAnd" and fn.const_value(s["rv"]["b"]) == 255]
-        ctx.ob("R02.1", "poll_write/length-prefix-big-endian(>>8,&0xff)", len(shr) == 1 and len(msk) == 1, site=fn.site(fn.entry), cfg=fx.cfg, detail="Shr-by-8: %d, BitAnd-0xff: %d" % (len(shr), len(msk)))
+        be = fn.calls(r"num::(<impl u16>::)?to_be_bytes$|u16::to_be_bytes$")
+        ctx.ob("R02.1", "poll_write/length-prefix-big-endian(>>8,&0xff)", (len(shr) == 1 and len(msk) == 1) or (len(be) == 1 and not shr and not msk), site=fn.site(fn.entry), cfg=fx.cfg,
+               detail="Shr-by-8: %d, BitAnd-0xff: %d, u16::to_be_bytes: %d" % (len(shr), len(msk), len(be)))
     fn = ctx.fn(fx, RD, "R02.1")
     if fn is not None:
         shl = [s for n, s in fn.assigns() if s["rv"]["r"] == "bin" and s["rv"]["op"].startswith("Shl") and fn.const_value(s["rv"]["b"]) == 8]
         bor = [s for n, s in fn.assigns() if s["rv"]["r"] == "bin" and s["rv"]["op"] == "BitOr"]
-        ctx.ob("R02.1", "poll_read/length-prefix-big-endian(<<8|)", len(shl) == 1 and len(bor) == 1, site=fn.site(fn.entry), cfg=fx.cfg, detail="Shl-by-8: %d, BitOr: %d" % (len(shl), len(bor)))
+        be = fn.calls(r"num::(<impl u16>::)?from_be_bytes$|u16::from_be_bytes$")
+        ctx.ob("R02.1", "poll_read/length-prefix-big-endian(<<8|)", (len(shl) == 1 and len(bor) == 1) or (len(be) == 1 and not shl and not bor), site=fn.site(fn.entry), cfg=fx.cfg,
+               detail="Shl-by-8: %d, BitOr: %d, u16::from_be_bytes: %d" % (len(shl), len(bor), len(be)))
     fn = ctx.fn(fx, N + "NoiseSocket::<S>::new", "R02.1")
     if fn is not None:
         fe = fn.calls(r"vec::from_elem$")
@@ -201,6 +205,15 @@ def r02_2(ctx, fx):
         if not someagg:
             continue
         vl = (someagg[0]["rv"]["ops"][0].get("m") or someagg[0]["rv"]["ops"][0].get("c") or [None])[0]
+        if vl is not None and not fn.locals[vl].startswith("std::vec::Vec<u8"):
+            # the parked value is a private struct / tuple around the buffer: take its Vec<u8> member
+            d = fn.single_def(vl)
+            if d is not None and d[1] == "assign" and d[2]["rv"]["r"] == "agg":
+                for o2 in d[2]["rv"].get("ops", []):
+                    q = o2.get("m") or o2.get("c")
+                    if q and len(q) == 1 and fn.locals[q[0]].startswith("std::vec::Vec<u8"):
+                        vl = q[0]
+                        break
         fillers = [rm for rm in rms if _vec_local(fn, rm.args[2]) == vl or ref_local(fn, rm.args[2]) == vl]
         if fillers:
             rm = fillers[0]
@@ -215,16 +228,31 @@ def r02_2(ctx, fx):
 def _accumulators(fn):
     """(T, B): T = the multiply-assigned local whose value is returned in Ready(Ok(T)) (bytes accepted);
     B = the multiply-assigned local stored as WriteState::Writing.encrypted_len (write position). Found by role, not by name."""
+    def accumulates(l):
+        # `l = l + x` (through the checked-add pair): a variable that is assigned more than once only because a block was cloned
+        # (inlining, engine/inline.py) is not an accumulator
+        for node, kind, pl in fn.defs().get(l, []):
+            if kind != "assign" or pl["rv"]["r"] != "use":
+                continue
+            q = pl["rv"]["o"].get("m") or pl["rv"]["o"].get("c")
+            d = fn.single_def(q[0]) if q else None
+            if d is not None and d[1] == "assign" and d[2]["rv"]["r"] == "bin" and d[2]["rv"]["op"].startswith("Add"):
+                for side in ("a", "b"):
+                    r = d[2]["rv"][side].get("m") or d[2]["rv"][side].get("c")
+                    if r and r[0] == l:
+                        return True
+        return False
+
+    def pick(cands):
+        cands = [l for l in cands if fn.single_def(l) is None and len(fn.defs().get(l, [])) >= 2 and fn.locals[l] == "usize"]
+        acc = [l for l in cands if accumulates(l)]
+        return (acc or cands or [None])[-1]
     T = B = None
     for n, sh in fn.exits():
         if any(s.startswith("Ready.Ok") for s in sh):
-            for l in slice_locals(fn, _ret_payload(fn, n)):
-                if fn.single_def(l) is None and len(fn.defs().get(l, [])) >= 2 and fn.locals[l] == "usize":
-                    T = l
+            T = pick(sorted(slice_locals(fn, _ret_payload(fn, n)))) or T
     for n, s in fn.aggregates(r"WriteState$", "Writing"):
-        for l in slice_locals(fn, s["rv"]["ops"][1]):
-            if fn.single_def(l) is None and len(fn.defs().get(l, [])) >= 2 and fn.locals[l] == "usize":
-                B = l
+        B = pick(sorted(slice_locals(fn, s["rv"]["ops"][1]))) or B
     return T, B
 
 
